@@ -7,6 +7,7 @@ import (
 	"fmt"
 	"io"
 	"net"
+	"os"
 	"strconv"
 	"strings"
 	"sync"
@@ -86,20 +87,30 @@ type server struct {
 	up     *scripted
 }
 
+// freePort returns a port that is free for UDP and TCP on loopback. Ports come from a range
+// private to this process (below the kernel's ephemeral range, sliced by pid) so that shards
+// running in parallel never hand each other's ports out, and are not reused within a run.
+var nextPort int
+
 func freePort() int {
-	for {
-		l, err := net.ListenPacket("udp", "127.0.0.1:0")
+	base := 10000 + (os.Getpid()%200)*100
+	for tries := 0; tries < 1000; tries++ {
+		port := base + nextPort%100
+		nextPort++
+		a := "127.0.0.1:" + strconv.Itoa(port)
+		l, err := net.ListenPacket("udp", a)
 		if err != nil {
-			panic(err)
+			continue
 		}
-		port := l.LocalAddr().(*net.UDPAddr).Port
+		t, err := net.Listen("tcp", a)
 		l.Close()
-		t, err := net.Listen("tcp", "127.0.0.1:"+strconv.Itoa(port))
-		if err == nil {
-			t.Close()
-			return port
+		if err != nil {
+			continue
 		}
+		t.Close()
+		return port
 	}
+	panic("no free port in the private range")
 }
 
 func startServer(up *scripted, inflight uint, timeout time.Duration) (*server, error) {
